@@ -316,6 +316,11 @@ func (p *prepared) evaluate(res []nodeRes) []glueOutcome {
 			outs = append(outs, glueOutcome{kind: "fail", what: "glue-probe-log-differs", input: input(&c), got: got, expect: native})
 			continue
 		}
+		if dyn, _ := p.job.desc["entry_dynamic_exports"].(bool); dyn && c.Format == "esm" {
+			// names the entry takes from a CommonJS file by "export *" cannot be declared by an ES module
+			outs = append(outs, glueOutcome{kind: "ok", note: "esm-exports-not-compared"})
+			continue
+		}
 		ge := got.exports()
 		if ge == "undefined" && native.exports() == "{}" {
 			ge = "{}" // an entry without exports: the IIFE global is not assigned an object
